@@ -10,7 +10,7 @@ for f in ["patch.diff", "seed_demo.rs", "notes.md"]:
         shutil.copy(os.path.join(src, f), os.path.join(dst, f))
 def rd(p):
     return open(p).read().strip() if os.path.exists(p) else ""
-base = "/tmp/sv_%s" % sid.split("-")[0]
+base = "/tmp/sv_%s" % sid
 meta = {
     "id": sid, "breaks_property": breaks, "needs_to_manifest": needs,
     "author": "independent sub-agent given only the property text and a scratch worktree",
